@@ -128,6 +128,12 @@ func cmdRace(args []string) int {
 						j.doc, j.tree = sharedDoc, sharedTree
 					} else {
 						j.doc = r.Intn(nRichDocs * 3)
+						if r.Intn(3) == 0 {
+							// a third of the calls work on the templates with pagers: both finders keep per-call state
+							// (number groups, candidate maps, score lists) that must not be shared
+							pagers := []int{1, 8, 9, 11, 15, 16, 18, 19, 23, 24, 25}
+							j.doc = pagers[r.Intn(len(pagers))] + nRichDocs*r.Intn(3)
+						}
 						j.tree = parse(j.doc)
 					}
 					j.opts = mkOpts(i, sharedOpts)
